@@ -290,6 +290,7 @@ class Emit:
                 if g['tls'] and s.seq: return '(&G_%s[%d])' % (mangle(v.v), s.tid)
                 if g['tls']: return '(&G_%s[CUR_TID])' % mangle(v.v)
                 return '(&G_%s)' % mangle(v.v)
+            REFERENCED.add(v.v)
             return '(%s)&%s' % (ty.c(), cfname(v.v))
         if v.kind == 'int':
             n = v.v & ((1 << ty.n) - 1)
@@ -327,6 +328,77 @@ ICMP = {'eq': ('==', 0), 'ne': ('!=', 0), 'ugt': ('>', 0), 'uge': ('>=', 0), 'ul
 
 def is_local_ptr(e, v, localptrs):
     return v.kind == 'local' and v.v in localptrs
+
+
+def cross_yield_live(f, backedges):
+    """registers that may be live at a point where the logical thread can yield (superset: before every memory access / call,
+    and across every back-edge). Only these need static storage; everything else becomes a local of run_tX."""
+    NAME = r'%("([^"]*)"|[A-Za-z0-9_.$]+)'
+    defs = set(p[1] for p in f.params if p[1])
+    ins_info = {}
+    for b in f.blocks:
+        for s in b.ins:
+            m = re.match(NAME + r' = ', s)
+            if m: defs.add(m.group(2) if m.group(2) is not None else m.group(1))
+    def toks(text):
+        out = []
+        for m in re.finditer(NAME, text):
+            n = m.group(2) if m.group(2) is not None else m.group(1)
+            if n in defs: out.append(n)
+        return out
+    succs = {}; info = {}; phis = {}
+    for b in f.blocks:
+        lst = []
+        for s in b.ins:
+            s = re.sub(r',\s*![a-zA-Z_.]+ ![0-9]+', '', s)
+            m = re.match(NAME + r' = (.*)$', s)
+            d = None; rhs = s
+            if m: d = m.group(2) if m.group(2) is not None else m.group(1); rhs = m.group(3)
+            op = rhs.split(None, 1)[0] if rhs.split() else ''
+            if op == 'phi':
+                inc = re.findall(r'\[\s*(.*?),\s*' + NAME + r'\s*\]', rhs)
+                phis.setdefault(b.name, []).append((d, [(toks(v), (q if q else p)) for (v, p, q) in inc]))
+                continue
+            rhs_nolabel = re.sub(r'label ' + NAME, '', rhs)
+            uses = toks(rhs_nolabel)
+            is_yield = op in ('load', 'store', 'cmpxchg', 'atomicrmw', 'fence', 'call', 'tail', 'notail', 'musttail')
+            lst.append((d, uses, is_yield))
+        info[b.name] = lst
+        last = b.ins[-1] if b.ins else ''
+        succs[b.name] = [x[1] if x[1] else x[0] for x in re.findall(r'label ' + NAME, last)]
+    live_in = {b.name: set() for b in f.blocks}; live_out = {b.name: set() for b in f.blocks}
+    def phi_defs(n): return set(d for d, _ in phis.get(n, []))
+    def edge_uses(pred, succ):
+        u = set()
+        for d, inc in phis.get(succ, []):
+            for vt, p in inc:
+                if p == pred: u.update(vt)
+        return u
+    changed = True
+    while changed:
+        changed = False
+        for b in reversed(f.blocks):
+            out = set()
+            for sname in succs[b.name]:
+                if sname in live_in: out |= (live_in[sname] - phi_defs(sname)) | edge_uses(b.name, sname)
+            live = set(out)
+            for d, uses, _ in reversed(info[b.name]):
+                if d: live.discard(d)
+                live.update(uses)
+            live |= set()  # phi defs are defined at block entry
+            if out != live_out[b.name] or live != live_in[b.name]:
+                live_out[b.name] = out; live_in[b.name] = live; changed = True
+    keep = set()
+    for b in f.blocks:
+        live = set(live_out[b.name])
+        for sname in succs[b.name]:
+            if (b.name, sname) in backedges and sname in live_in:
+                keep |= live_in[sname] | phi_defs(sname)
+        for d, uses, is_yield in reversed(info[b.name]):
+            if d: live.discard(d)
+            live.update(uses)
+            if is_yield: keep |= live
+    return keep
 
 def translate_function(f, tid=None, seq=False, opts=None):
     opts = opts or {}
@@ -372,6 +444,7 @@ def translate_function(f, tid=None, seq=False, opts=None):
             if not adv:
                 color[node] = 2; post.append(node); stack.pop()
     dfs(f.blocks[0].name)
+    e.keep = cross_yield_live(f, backedges) if seq else None
     order = list(reversed(post))
     byname = {b.name: b for b in f.blocks}
     f.blocks = [byname[n] for n in order]
@@ -660,6 +733,7 @@ def ctype_decls():
 TSO_LOCS = {}
 SPECIAL = {}
 CALLED = set()
+REFERENCED = set()
 NOOP = set()
 TRAP = set()
 
@@ -721,7 +795,13 @@ def main():
         todo = [n for n in plain_names if n not in done]
         if not todo:
             # calls to functions defined in the module but not inlined: translate them as atomic plain functions
-            extra = [c for c in sorted(CALLED) if c in M.funcs and c not in done and c not in threads]
+            # address-taken functions in global initialisers (vtables) count as referenced
+            def scan(v):
+                if v is None: return
+                if v.kind == 'global' and v.v in M.funcs: REFERENCED.add(v.v)
+                for o in (v.ops or []): scan(o)
+            for g in M.globals.values(): scan(g['init'])
+            extra = [c for c in sorted(CALLED | REFERENCED) if c in M.funcs and c not in done and c not in threads]
             if not extra: break
             plain_names += extra; continue
         for n in todo:
@@ -810,8 +890,14 @@ def main():
     else:
         P('static void tso_commit(int t) { }')
     for em in ems:
-        for k, ty in em.regs.items(): P('static %s %sr_%s;' % (ty.c(), em.pfx, k))
+        keepm = set(mangle(k) for k in (em.keep or []))
+        nstat = 0
+        for k, ty in em.regs.items():
+            if em.keep is None or k in keepm: P('static %s %sr_%s;' % (ty.c(), em.pfx, k)); nstat += 1
+        sys.stderr.write('irseq: thread %d: %d of %d registers live across a yield point (static)\n' % (em.tid, nstat, len(em.regs)))
         P('void run_t%d(int cs) {' % em.tid)
+        for k, ty in em.regs.items():
+            if not (em.keep is None or k in keepm): P('  %s %sr_%s;' % (ty.c(), em.pfx, k))
         P('  switch (TH[%d].pc) { case -2: break; %s default: return; }' % (em.tid, ' '.join('case %d: goto %s;' % (k, l) for k, l in em.resume)))
         P('\n'.join(em.out)); P('}')
     sys.stderr.write('irseq: %d threads, visible points per thread: %s\n' % (N, [em.nvis for em in ems]))
@@ -823,13 +909,19 @@ def main():
         P('int main(void) {')
         for t in range(N): P('  TH[%d].pc = -2;' % t)
         if 'verif_init' in M.funcs: P('  F_verif_init();')
+        cube = cfg.get('cube')   # {'parts': K, 'index': [p0, p1, ...]}: case split on the first-round preemption point of each thread
         for r in range(R):
             for t in (order[r] if order else range(N)):
-                P('  if (!TH[%d].done) { int cs = (int)VERIF_CHOICE(); TH[%d].spin = 0; CUR_TID = %d; run_t%d(cs); VERIF_TRACE(%d, cs); }' % (t, t, t, t, t))
+                cons = ''
+                if cube and r == 0 and t < len(cube['index']):
+                    K = cube['parts']; p = cube['index'][t]; nv = max(1, ems[t].nvis)
+                    if p >= K: cons = ' __CPROVER_assume(cs < 0 || cs >= %d);' % nv
+                    else: cons = ' __CPROVER_assume(cs >= %d && cs < %d);' % (p * nv // K, (p + 1) * nv // K)
+                P('  if (!TH[%d].done) { int cs = (int)VERIF_CHOICE();%s TH[%d].spin = 0; CUR_TID = %d; run_t%d(cs); VERIF_TRACE(%d, cs); }' % (t, cons, t, t, t, t))
                 if opts.get('tso'): P('  tso_flush_some();')
         if opts.get('tso'): P('  tso_flush_all();')
         P('  { int pcb[%d];' % N)
-        NQ = cfg.get('quiesce', 2)
+        NQ = cfg.get('quiesce', 1)
         for q in range(NQ):
             if q == NQ - 1: P('  VERIF_PROG = 0;')
             for t in range(N):
